@@ -12,12 +12,6 @@ Inductive obs_step :=
 
 Record case := mkCase { k_names : list bytes; k_extra : bool (* unexpected entries in the layers dir *); k_steps : list obs_step }.
 
-(* what a callback typed with MV gets to see of the metadata *)
-Definition proj_md (m : mty) (x : md) : md :=
-  match m, x with
-  | MV, Some t => match tget k_version t with Some v => Some [(k_version, v)] | None => Some [] end
-  | _, _ => x
-  end.
 Definition proj_call (m : mty) (c : call) : call :=
   match c with CallRestored x => CallRestored (proj_md m x) | CallInvalid x => CallInvalid x end.
 
